@@ -208,4 +208,22 @@ theorem of_sweepsAgree (g : Graph) (r : Mod) (ms ms' : List Mod) (h : sweepsAgre
     | some _ => simp at this
   · cases h
 
+/-! ## optional third-party modules
+
+A module of the tree that does `try: import X … except …:` must import whatever the host's `X` does: be absent,
+import fine, raise ImportError (installed but broken), or raise ModuleNotFoundError for one of its own dependencies.
+`Graph.withOpt g x k` is the same tree on such a host. -/
+
+/-- the host variants that make sense for `x`: when the measured interpreter has `x` (it then imports fine as
+measured) there is no separate "stub" variant -/
+def optKinds (g : Graph) (x : Mod) : List OptKind :=
+  match g.baseNode? x with
+  | some nd => if nd.exists_ then [.absent, .importError, .notFoundOther]
+               else [.absent, .stub, .importError, .notFoundOther]
+  | none => [.absent, .stub, .importError, .notFoundOther]
+
+/-- on every host variant of `p.1`, every module of `p.2` outside `skip` imports cold -/
+def optOk (g : Graph) (r : Mod) (skip : Mod → Bool) (p : Mod × List Mod) : Bool :=
+  (optKinds g p.1).all (fun k => coldChunkOk (g.withOpt p.1 k) r skip p.2)
+
 end Ioflo.Imports
